@@ -88,7 +88,10 @@ VStr(s)   == V("s", s, 0, 0, <<>>)
 VInt(n)   == V("i", <<>>, n, 0, <<>>)
 \* an integer too long for TLC arithmetic (10..18 digits): carried as its canonical decimal text, compared by text only
 VBig(s)   == V("I", s, 0, 0, <<>>)
-BigIntText(s) == IntTextLong(s) /\ Len(IntBody(s)) <= 18 /\ IntBody(s)[1] # 48
+MaxInt64Text == <<57,50,50,51,51,55,50,48,51,54,56,53,52,55,55,53,56,48,55>>      \* 9223372036854775807
+BigIntText(s) == /\ IntTextLong(s) /\ IntBody(s)[1] # 48
+                 /\ \/ Len(IntBody(s)) <= 18
+                    \/ (Len(IntBody(s)) = 19 /\ (IntBody(s) = MaxInt64Text \/ LexLess(IntBody(s), MaxInt64Text)))
 CanonInt(s) == IF s[1] = 45 THEN <<45>> \o IntBody(s) ELSE IntBody(s)
 VBool(b)  == V("b", <<>>, IF b THEN 1 ELSE 0, 0, <<>>)
 VList(l)  == V("l", <<>>, 0, 0, l)
